@@ -14,9 +14,10 @@ From Interval Require Import Specific_stdz Specific_ops Float_full Interval Xrea
 (* ------------------------------------------------------------------ 1. exact layer *)
 
 (* apen.py:26-33  the four branches of the type dispatch.  The payload of SeqList / SeqArray is the
-   integer content (np.array(list) and ndarray.tolist() both give exact integers for the dtypes of
-   the domain: after the fix 8fd721a the array branch computes with Python ints, the list branch with
-   int64, neither of which wraps for |values| < 2^62). *)
+   integer content: after the fixes 8fd721a (ndarray -> .tolist()) and bf18ea2 (list -> list(sequence))
+   both branches compute abs(ua - va) on the Python ints themselves, exact for every magnitude; the str
+   branch computes on int64 digits 0..9.  (A list whose elements are NumPy scalars, e.g. np.uint8, is
+   not "a list of ints": its differences still wrap.  Outside the model.) *)
 Inductive seq_input :=
 | SeqStr (s : string)        (* type(sequence) is str *)
 | SeqList (zs : list Z)      (* type(sequence) is list *)
@@ -81,6 +82,15 @@ Definition pincus_match (U : list Z) (m : nat) (r : Z) (i j : nat) : bool :=
 Definition pincus_C (U : list Z) (m : nat) (r : Z) (i : nat) : nat :=
   length (filter (pincus_match U m r i) (seq 0 (length U + 1 - m))).
 
+(* Real-valued tolerance (the usual r = 0.2 * std): the code evaluates  d <= r  with d a Python int and
+   r a float, which Python decides exactly.  [CsR] is the count with that comparison; it is not
+   executable (Rle_dec); Proofs/ApenProofs.v proves CsR m rr U = Cs m (floor rr) U,
+   so the correspondence hands floor r to the integer model. *)
+Definition match_countR (rr : R) (xs : list (list Z)) (xi : list Z) : nat :=
+  length (filter (fun xj => if Rle_dec (IZR (max_dist xi xj)) rr then true else false) xs).
+Definition CsR (m : nat) (rr : R) (U : list Z) : list nat :=
+  let xs := xwindows m U in map (match_countR rr xs) xs.
+
 (* ------------------------------------------------------------------ 2. real layer *)
 
 Definition Rsum (l : list R) : R := fold_right Rplus 0%R l.
@@ -130,10 +140,27 @@ Definition IsumI (l : list I.type) : I.type := fold_right (I.add prec) (I.fromZ 
 
 Definition lnfracI (n c : nat) : I.type := I.sub prec (lnN c) (lnN n).
 
+(* [map f l] with f evaluated once per distinct element (the VM is call-by-value, so [tab] is computed
+   once): long sequences have thousands of windows but few distinct counts, and beyond the table every
+   logarithm costs ~20 ms.  Proofs/ApenProofs.v: memo_map f l = map f l. *)
+Fixpoint assoc_nat (k : nat) (tab : list (nat * I.type)) : option I.type :=
+  match tab with
+  | [] => None
+  | (k', v) :: tab' => if (k =? k')%nat then Some v else assoc_nat k tab'
+  end.
+Fixpoint distinct (l acc : list nat) : list nat :=
+  match l with
+  | [] => acc
+  | c :: l' => if existsb (Nat.eqb c) acc then distinct l' acc else distinct l' (c :: acc)
+  end.
+Definition memo_map (f : nat -> I.type) (l : list nat) : list I.type :=
+  let tab := map (fun c => (c, f c)) (distinct l []) in
+  map (fun c => match assoc_nat c tab with Some v => v | None => f c end) l.
+
 Definition phiI (m : nat) (r : Z) (U : list Z) : I.type :=
   let n := nwin m U in
   I.mul prec (I.div prec (I.fromZ prec 1) (I.fromZ prec (Z.of_nat n)))
-             (IsumI (map (lnfracI n) (Cs m r U))).
+             (IsumI (memo_map (lnfracI n) (Cs m r U))).
 
 Definition apenI (m : nat) (r : Z) (U : list Z) : I.type :=
   I.abs (I.sub prec (phiI (S m) r U) (phiI m r U)).
